@@ -401,7 +401,9 @@ impl ChunkedAdjacency {
     pub fn with_chunk_capacity(capacity: usize) -> Self {
         Self {
             lists: RwLock::new(FxHashMap::default()),
-            chunk_capacity: capacity,
+            // A chunk must hold at least one entry: with capacity 0 every push is
+            // refused and compaction would drop the entries it drains.
+            chunk_capacity: capacity.max(1),
             edge_count: AtomicUsize::new(0),
             deleted_count: AtomicUsize::new(0),
         }
